@@ -3,7 +3,8 @@
 # Copies /repo's working tree to a scratch dir, applies the patch there and runs ./check against it (VERIF_REPO).
 # The run builds, writes its evidence and its witnesses inside /verif/.build-alt-*/ - nothing of /verif/evidence,
 # /verif/replays or /verif/.build is touched, so it can run next to ordinary checks. KEEP_REPLAYS=<dir> copies the
-# witnesses there before the scratch directories are removed.
+# witnesses there before the scratch directories are removed. Several of these can run side by side: each removes only
+# its own build directory.
 set -u
 patch="$1"; shift
 S=$(mktemp -d /tmp/vscratch.XXXXXX)
@@ -12,9 +13,10 @@ if [ "$patch" != "-" ]; then
   (cd "$S/repo" && git init -q . 2>/dev/null; git -C "$S/repo" apply --whitespace=nowarn "$patch") || { echo "patch failed"; rm -rf "$S"; exit 9; }
 fi
 cd /verif
+ALT=/verif/.build-alt-$(printf %s "$S/repo" | sha1sum | cut -c1-8)
 VERIF_REPO="$S/repo" ./check "$@"
 rc=$?
-if [ -n "${KEEP_REPLAYS:-}" ]; then mkdir -p "$KEEP_REPLAYS"; cp -r /verif/.build-alt-*/replays/. "$KEEP_REPLAYS"/ 2>/dev/null; fi
-rm -rf "$S" /verif/.build-alt-*
+if [ -n "${KEEP_REPLAYS:-}" ]; then mkdir -p "$KEEP_REPLAYS"; cp -r "$ALT"/replays/. "$KEEP_REPLAYS"/ 2>/dev/null; fi
+rm -rf "$S" "$ALT"
 echo "mutrun rc=$rc"
 exit $rc
